@@ -1,24 +1,222 @@
-(* C15 - PLACEHOLDER statement file (C15_atomic is written by the proof task); computed facts about the
-   model only. *)
-From PJ Require Import Base.Prelude Graph.Model Graph.Invariant.
+(* C15 - "Whenever a mutator of a task, task list or WBS raises, every observable relation and attribute of
+   every task and WBS is exactly what it was before the call."
+
+   Statement file (the list was written as Graph/StmtC15.v by the C15 proof task; the premise
+   "children.remove keeps WF" of the remove_all statements is discharged in Graph/StepProofs.v section 6).
+   A state is the whole observable graph (every field of every task, the WBS root lists), so
+   "fst (step s o) = s" is the property text for the call o.
+   Summary: 18 kinds atomic on ALL states (C15_atomic); 21 kinds atomic on well-formed states
+   (C15_atomic_wf: + the three remove_all loops, which never raise there); 3 kinds REFUTED (finding F10:
+   list-level << / >>, bulk parent assignment, the constructor with relation arguments). *)
+From PJ Require Import Base.Prelude Graph.Model Graph.Invariant Graph.OracleProofs Graph.AtomicProofs Graph.AtomicLoops.
+From PJ Require Graph.StepProofs.
 Local Open Scope nat_scope.
 
-(* a concrete history: one WBS, three tasks (ids 1, 2, 1), task 2 below task 1 in the WBS, a dependency *)
-Definition demo_ops : list op :=
-  [NewWbs; NewTask 1%Z None [] None; NewTask 2%Z None [] None; NewTask 1%Z None [] None;
-   ChAppend 0 (Some 1); SetParent 2 (Some 1); SetLinks true 3 [Some 2]].
-Definition demo : state := run init demo_ops.
-(* rejected calls on the demo state return the very same state *)
-Example C15_demo_rejected_calls_change_nothing :
-  forallb (fun o => let r := step demo o in
-                    negb (Nat.eqb (outcome_code (snd r)) 0) &&
-                    list_eqb (fun a b => Z.eqb (tid a) (tid b) && opt_eqb Nat.eqb (par a) (par b) &&
-                                         list_eqb Nat.eqb (kids a) (kids b) && list_eqb Nat.eqb (preds a) (preds b) &&
-                                         list_eqb Nat.eqb (succs a) (succs b) && opt_eqb Nat.eqb (own a) (own b))
-                             (hp (fst r)) (hp demo))
-          [SetChildren 0 [Some 1; Some 3]; ChInsert 1 5%Z (Some 3); ChMove 1 [Some 2] (Some 2) None;
-           SetLinks true 1 [Some 3; Some 2]; ChReorder 0 [1%Z; 1%Z]; ChReorder 0 [4%Z]; ChSort 0 KPrio false] = true.
+(* ---- proved for ALL states and arguments: 18 of the 24 operation kinds ---- *)
+Theorem C15_atomic : forall s o, atomic_op o = true -> snd (step s o) <> OK -> fst (step s o) = s.
+Proof. exact AtomicProofs.C15_atomic. Qed.
+
+Theorem C15_atomic_core : forall s o, atomic_op o = true -> snd (step' s o) <> OK -> fst (step' s o) = s.
+Proof. exact AtomicProofs.C15_atomic_core. Qed.
+
+(* the kinds not covered by C15_atomic: three refuted (below), three loops (partial, below) *)
+Theorem C15_atomic_op_false_kinds : forall o, atomic_op o = false ->
+  (exists d ts vs, o = LstShift d ts vs) \/ (exists ts p, o = LstSetParent ts p) \/
+  (exists i nm p ch su pr, o = NewTaskRel i nm p ch su pr) \/
+  (exists x ids, o = ChRemoveAll x ids) \/ (exists d t ids, o = LnRemoveAll d t ids) \/
+  (exists w ids, o = WbsRemoveAll w ids).
+Proof. exact AtomicProofs.atomic_op_false_kinds. Qed.
+
+(* ---- refuted (finding F10): list-level << / >>, bulk attribute assignment, constructor with relations ---- *)
+Theorem C15_refuted_lst_shift : exists s o, snd (step s o) <> OK /\ fst (step s o) <> s.
+Proof. exact AtomicProofs.C15_refuted_lst_shift. Qed.
+
+Theorem C15_refuted_lst_shift_detail :
+  snd (step wit_lst_shift_pre wit_lst_shift_op) = Err /\
+  preds (get (hp wit_lst_shift_pre) 1) = [] /\
+  preds (get (hp (fst (step wit_lst_shift_pre wit_lst_shift_op))) 1) = [2] /\
+  succs (get (hp (fst (step wit_lst_shift_pre wit_lst_shift_op))) 2) = [1].
+Proof. exact AtomicProofs.C15_refuted_lst_shift_detail. Qed.
+
+Theorem C15_refuted_lst_set_parent : exists s o, snd (step s o) <> OK /\ fst (step s o) <> s.
+Proof. exact AtomicProofs.C15_refuted_lst_set_parent. Qed.
+
+Theorem C15_refuted_lst_set_parent_detail :
+  snd (step wit_lst_set_parent_pre wit_lst_set_parent_op) = Err /\
+  kids (get (hp wit_lst_set_parent_pre) 0) = [1; 2] /\
+  kids (get (hp (fst (step wit_lst_set_parent_pre wit_lst_set_parent_op))) 0) = [2] /\
+  kids (get (hp (fst (step wit_lst_set_parent_pre wit_lst_set_parent_op))) 2) = [1] /\
+  par (get (hp (fst (step wit_lst_set_parent_pre wit_lst_set_parent_op))) 1) = Some 2.
+Proof. exact AtomicProofs.C15_refuted_lst_set_parent_detail. Qed.
+
+Theorem C15_refuted_new_task_rel : exists s o, snd (step s o) <> OK /\ fst (step s o) <> s.
+Proof. exact AtomicProofs.C15_refuted_new_task_rel. Qed.
+
+Theorem C15_refuted_new_task_rel_detail :
+  snd (step wit_new_task_rel_pre wit_new_task_rel_op) = Err /\
+  kids (get (hp wit_new_task_rel_pre) 0) = [] /\
+  kids (get (hp (fst (step wit_new_task_rel_pre wit_new_task_rel_op))) 0) = [1].
+Proof. exact AtomicProofs.C15_refuted_new_task_rel_detail. Qed.
+
+(* what does hold for the three kinds: a raising call leaves the COMPLETE effect of the element calls
+   that returned (every element call is atomic) *)
+Theorem C15_lst_shift_partial : forall d s ts vs,
+  snd (lst_shift d s ts vs) <> OK ->
+  exists done t rest, ts = done ++ t :: rest /\
+    snd (lst_shift d s done vs) = OK /\ fst (lst_shift d s ts vs) = fst (lst_shift d s done vs).
+Proof. exact AtomicProofs.C15_lst_shift_partial. Qed.
+
+Theorem C15_lst_set_parent_partial : forall s ts p,
+  snd (lst_set_parent s ts p) <> OK ->
+  exists done t rest, ts = done ++ t :: rest /\
+    snd (lst_set_parent s done p) = OK /\ fst (lst_set_parent s ts p) = fst (lst_set_parent s done p).
+Proof. exact AtomicProofs.C15_lst_set_parent_partial. Qed.
+
+(* ---- the remove_all loops: full statements, proved parts ---- *)
+Definition C15_ch_remove_all_statement : Prop := AtomicProofs.C15_ch_remove_all_statement.
+Definition C15_ln_remove_all_statement : Prop := AtomicProofs.C15_ln_remove_all_statement.
+Definition C15_wbs_remove_all_statement : Prop := AtomicProofs.C15_wbs_remove_all_statement.
+
+Theorem C15_ch_remove_all_partial : forall s o ids,
+  snd (ch_remove_all s o ids) <> OK ->
+  exists done c rest,
+    filter (fun c => memz (tid (get (hp s) c)) ids) (kids (get (hp s) o)) = done ++ c :: rest /\
+    snd (seq_calls (fun s' c => ch_remove s' o (Some c)) s done) = OK /\
+    fst (ch_remove_all s o ids) = fst (seq_calls (fun s' c => ch_remove s' o (Some c)) s done) /\
+    snd (ch_remove (fst (ch_remove_all s o ids)) o (Some c)) = snd (ch_remove_all s o ids).
+Proof. exact AtomicProofs.C15_ch_remove_all_partial. Qed.
+
+Theorem C15_ln_remove_all_partial : forall d s t ids,
+  snd (ln_remove_all d s t ids) <> OK ->
+  exists done c rest,
+    filter (fun c => memz (tid (get (hp s) c)) ids) (fwd d (get (hp s) t)) = done ++ c :: rest /\
+    snd (seq_calls (fun s' c => ln_remove d s' t (Some c)) s done) = OK /\
+    fst (ln_remove_all d s t ids) = fst (seq_calls (fun s' c => ln_remove d s' t (Some c)) s done) /\
+    snd (ln_remove d (fst (ln_remove_all d s t ids)) t (Some c)) = snd (ln_remove_all d s t ids).
+Proof. exact AtomicProofs.C15_ln_remove_all_partial. Qed.
+
+Theorem C15_wbs_remove_all_partial : forall s w ids,
+  snd (wbs_remove_all s w ids) <> OK ->
+  (exists k, wbs_tasks s w = Crash k /\ wbs_remove_all s w ids = (s, Crash k)) \/
+  exists l done c rest,
+    wbs_tasks s w = Ok l /\
+    filter (fun c => memz (tid (get (hp s) c)) ids) l = done ++ c :: rest /\
+    snd (seq_calls (fun s' c => wbs_remove_task s' w c) s done) = OK /\
+    fst (wbs_remove_all s w ids) = fst (seq_calls (fun s' c => wbs_remove_task s' w c) s done) /\
+    snd (wbs_remove_task (fst (wbs_remove_all s w ids)) w c) = snd (wbs_remove_all s w ids).
+Proof. exact AtomicProofs.C15_wbs_remove_all_partial. Qed.
+
+(* the full statements follow from: one removal of a well-formed state is accepted and keeps WF *)
+Theorem C15_ch_remove_all_from_total :
+  ch_remove_accepts_statement -> ch_remove_WF_statement -> C15_ch_remove_all_statement.
+Proof. exact AtomicProofs.C15_ch_remove_all_from_total. Qed.
+
+Theorem C15_ln_remove_all_from_total :
+  ln_remove_accepts_statement -> ln_remove_WF_statement -> C15_ln_remove_all_statement.
+Proof. exact AtomicProofs.C15_ln_remove_all_from_total. Qed.
+
+Theorem C15_wbs_remove_all_from_total :
+  ch_remove_accepts_statement -> ch_remove_WF_statement -> wbs_tasks_total_statement ->
+  C15_wbs_remove_all_statement.
+Proof. exact AtomicProofs.C15_wbs_remove_all_from_total. Qed.
+
+(* one removal of a well-formed state IS accepted: any sub-list of the present children / links passes every
+   guard of the setter (so the loops never raise on well-formed states) *)
+Theorem C15_set_children_guard_sublist : forall s o value,
+  WF s -> incl value (kids (get (hp s) o)) -> set_children_guard s o value = OK.
+Proof. exact AtomicLoops.set_children_guard_sublist. Qed.
+
+Theorem C15_set_links_guard_sublist : forall d s t value,
+  WF s -> incl value (fwd d (get (hp s) t)) -> set_links_guard d s t value = OK.
+Proof. exact AtomicLoops.set_links_guard_sublist. Qed.
+
+Theorem C15_ch_remove_accepts : forall s o c, WF s -> snd (ch_remove s o (Some c)) = OK.
+Proof. exact AtomicLoops.ch_remove_accepts. Qed.
+
+Theorem C15_ln_remove_accepts : forall s d t x, WF s -> snd (ln_remove d s t (Some x)) = OK.
+Proof. exact AtomicLoops.ln_remove_accepts. Qed.
+
+Theorem C15_wbs_tasks_total : forall s w, WF s -> exists l, wbs_tasks s w = Ok l.
+Proof. exact AtomicLoops.wbs_tasks_total. Qed.
+
+(* predecessors / successors .remove_all: fully proved *)
+Theorem C15_ln_remove_all : forall s d t ids, WF s ->
+  snd (step s (LnRemoveAll d t ids)) <> OK -> fst (step s (LnRemoveAll d t ids)) = s.
+Proof. exact AtomicLoops.C15_ln_remove_all_proved. Qed.
+
+(* children.remove_all, WBS.remove_all: children.remove keeps WF (Graph/ChildrenOps.v, ch_remove_WF), so the
+   loops never raise on a well-formed state and the full statements hold *)
+Theorem C15_ch_remove_keeps_WF : forall s o c, WF s -> WF (fst (ch_remove s o (Some c))).
+Proof. exact StepProofs.ch_remove_WF_all. Qed.
+
+Theorem C15_ch_remove_all : forall s o ids, WF s ->
+  snd (step s (ChRemoveAll o ids)) <> OK -> fst (step s (ChRemoveAll o ids)) = s.
+Proof. exact StepProofs.C15_ch_remove_all_wf. Qed.
+
+Theorem C15_wbs_remove_all : forall s w ids, WF s ->
+  snd (step s (WbsRemoveAll w ids)) <> OK -> fst (step s (WbsRemoveAll w ids)) = s.
+Proof. exact StepProofs.C15_wbs_remove_all_wf. Qed.
+
+(* stronger: on a well-formed state the three loops never raise at all *)
+Theorem C15_remove_all_never_raises : forall s, WF s ->
+  (forall o ids, snd (ch_remove_all s o ids) = OK) /\
+  (forall d t ids, snd (ln_remove_all d s t ids) = OK) /\
+  (forall w ids, snd (wbs_remove_all s w ids) = OK).
+Proof. exact StepProofs.remove_all_never_raises_wf. Qed.
+
+(* all kinds but the three refuted ones (21 of 24), on well-formed states; with C01_reach: on every state
+   reached by a public history *)
+Theorem C15_atomic_wf :
+  forall s o, WF s -> atomic_op_wf o = true -> snd (step s o) <> OK -> fst (step s o) = s.
+Proof. exact StepProofs.C15_atomic_wf_all. Qed.
+
+Theorem C15_atomic_reach : forall ops o, StepProofs.pub_run init ops ->
+  atomic_op_wf o = true -> snd (step (run init ops) o) <> OK -> fst (step (run init ops) o) = run init ops.
+Proof. exact StepProofs.C15_atomic_reach. Qed.
+
+Theorem C15_atomic_wf_false_kinds : forall o, atomic_op_wf o = false ->
+  (exists d ts vs, o = LstShift d ts vs) \/ (exists ts p, o = LstSetParent ts p) \/
+  (exists i nm p ch su pr, o = NewTaskRel i nm p ch su pr).
+Proof. exact AtomicLoops.atomic_op_wf_false_kinds. Qed.
+
+(* ---- non-vacuity ---- *)
+(* a reachable, well-formed state: one WBS, three tasks (ids 1, 2, 1), task 2 below task 1, a dependency *)
+Definition c15_demo : state :=
+  run init [NewWbs; NewTask 1%Z None [] None; NewTask 2%Z None [] None; NewTask 1%Z None [] None;
+            ChAppend 0 (Some 1); SetParent 2 (Some 1); SetLinks true 3 [Some 2]].
+
+Example c15_demo_WF : WF c15_demo.
+Proof. apply wf_b_WF. vm_compute. reflexivity. Qed.
+
+(* calls of the atomic kinds that ARE rejected on it (so the hypothesis of C15_atomic is satisfiable), with
+   every exception class of the model: RuntimeError, IndexError, StopIteration, ValueError, AttributeError *)
+Example c15_demo_rejected :
+  map (fun o => (atomic_op o, outcome_code (snd (step c15_demo o))))
+      [SetChildren 0 [Some 1; Some 3]; ChInsert 1 5%Z (Some 3); ChMove 1 [Some 2] (Some 2) None;
+       SetLinks true 1 [Some 3; Some 2]; ChReorder 0 [4%Z]; ChReorder 0 [1%Z; 1%Z]; ChSort 0 KPrio false;
+       SetParent 1 (Some 2); ChAppend 2 (Some 1); LnAppend true 2 (Some 3); OpShift false 2 [Some 1];
+       OpFloordiv 2 [Some 3; Some 1]; SetEst 1 (Some (-1)%Z); NewTask 9%Z None [] (Some (-1)%Z);
+       WbsRemove 0 None; ChRemove 0 None]
+  = [(true, 1); (true, 14); (true, 1); (true, 1); (true, 16); (true, 13); (true, 17);
+     (true, 1); (true, 1); (true, 1); (true, 1); (true, 1); (true, 1); (true, 1); (true, 1); (true, 1)].
 Proof. vm_compute. reflexivity. Qed.
+
+(* the loops on the well-formed demo state: accepted, nothing raised (the conclusion of the full statements
+   holds vacuously there; their content is "never raises") *)
+Example c15_demo_loops_accepted :
+  map (fun o => outcome_code (snd (step c15_demo o)))
+      [ChRemoveAll 0 [1%Z]; ChRemoveAll 1 [2%Z; 7%Z]; LnRemoveAll true 3 [2%Z]; LnRemoveAll false 2 [1%Z];
+       WbsRemoveAll 0 [2%Z; 1%Z]] = [0; 0; 0; 0; 0].
+Proof. vm_compute. reflexivity. Qed.
+
+(* a remove_all loop can raise - on an ill-formed state (child 2 depends on its parent 0) - so the
+   hypothesis of the partial lemmas is satisfiable; on well-formed states it cannot (full statement) *)
+Example c15_loop_can_raise :
+  let bad := mkS [mkT 0%Z None [1; 2] [] [2] None false None [] None;
+                  mkT 1%Z (Some 0) [] [] [] None false None [] None;
+                  mkT 2%Z (Some 0) [] [0] [] None false None [] None] [] in
+  snd (ch_remove_all bad 0 [1%Z]) = Err /\ fst (ch_remove_all bad 0 [1%Z]) = bad /\ wf_b bad = false.
+Proof. vm_compute. auto. Qed.
 
 (* the list-level loop is NOT atomic (finding F10): the first element is re-parented before the second is rejected *)
 Example C15_bulk_parent_not_atomic :
@@ -28,5 +226,38 @@ Example C15_bulk_parent_not_atomic :
   outcome_code (snd r) = 1 /\ par (get (hp (fst r)) 1) = Some 3 /\ par (get (hp s) 1) = Some 0.
 Proof. vm_compute. repeat split; reflexivity. Qed.
 
-Print Assumptions C15_demo_rejected_calls_change_nothing.
+Print Assumptions C15_atomic.
+Print Assumptions C15_atomic_core.
+Print Assumptions C15_atomic_op_false_kinds.
+Print Assumptions C15_refuted_lst_shift.
+Print Assumptions C15_refuted_lst_shift_detail.
+Print Assumptions C15_refuted_lst_set_parent.
+Print Assumptions C15_refuted_lst_set_parent_detail.
+Print Assumptions C15_refuted_new_task_rel.
+Print Assumptions C15_refuted_new_task_rel_detail.
+Print Assumptions C15_lst_shift_partial.
+Print Assumptions C15_lst_set_parent_partial.
+Print Assumptions C15_ch_remove_all_partial.
+Print Assumptions C15_ln_remove_all_partial.
+Print Assumptions C15_wbs_remove_all_partial.
+Print Assumptions C15_ch_remove_all_from_total.
+Print Assumptions C15_ln_remove_all_from_total.
+Print Assumptions C15_wbs_remove_all_from_total.
+Print Assumptions C15_set_children_guard_sublist.
+Print Assumptions C15_set_links_guard_sublist.
+Print Assumptions C15_ch_remove_accepts.
+Print Assumptions C15_ln_remove_accepts.
+Print Assumptions C15_wbs_tasks_total.
+Print Assumptions C15_ln_remove_all.
+Print Assumptions C15_ch_remove_keeps_WF.
+Print Assumptions C15_ch_remove_all.
+Print Assumptions C15_wbs_remove_all.
+Print Assumptions C15_remove_all_never_raises.
+Print Assumptions C15_atomic_wf.
+Print Assumptions C15_atomic_reach.
+Print Assumptions C15_atomic_wf_false_kinds.
+Print Assumptions c15_demo_WF.
+Print Assumptions c15_demo_rejected.
+Print Assumptions c15_demo_loops_accepted.
+Print Assumptions c15_loop_can_raise.
 Print Assumptions C15_bulk_parent_not_atomic.
